@@ -46,13 +46,13 @@ func init() {
 	}
 	Registry["C19"] = &Prop{
 		Plan: func(tier string) Plan {
-			return Plan{Level: "exploration", Race: true, NCases: pick(tier, 5, 50) * len(c19Items), Batch: 3, CaseTimeout: 150,
+			return Plan{Level: "exploration", Race: true, NCases: pick(tier, 5, 150) * len(c19Items), Batch: 3, CaseTimeout: 150,
 				Rule: "the worker is built with -race (GORACE halt_on_error=0, log_path) and runs the concurrent workloads of C04 (writers, point and range readers, injected errors), C06 (observers, watchers, compactor), C05 (watchers joining/leaving/overflowing), C07 (compaction against writers), C09 (async retry after injected unknown outcomes) C14 (lock candidates), C15 (a follower serving concurrent reads, then taking over) and C18 (leader/follower pair with the real revision syncer) on memkv and Badger with production sequencer timing, each repeated with different seeds. " +
 					"oracle = number of 'WARNING: DATA RACE' blocks whose access stacks contain a frame in github.com/kubewharf/kubebrain/ (this covers huandu/skiplist reached through memkv and Badger reached through the adapter), deduplicated by the pair of innermost kubebrain functions. " +
 					"non-trivial+distinct = workload kinds x seeds that ran to completion under the detector",
 				Assumptions: []string{"the race detector only sees the executions produced; reports entirely inside the TiKV mock or the harness are listed separately and do not decide the property",
 					"the workloads' own functional verdicts are ignored here (their checks run separately without -race)"},
-				MinConcl: pick(tier, 15, 150)}
+				MinConcl: pick(tier, 15, 450)}
 		},
 		Name: func(c *harness.Case) string { return c19Items[c.Index%len(c19Items)].name },
 		Run: func(c *harness.Case) {
